@@ -29,6 +29,18 @@ type c02Matcher struct {
 	Op    string `json:"op"` // eq ne re nre
 	Value string `json:"value,omitempty"`
 	Re    *Re    `json:"re,omitempty"`
+	// Bare: Re is alt(seq(bol, X), seq(Y, eol)) and is written the way people write it, `^X|Y$`
+	// (outer anchors and a top-level alternation, no grouping), not in the generator's parenthesised form
+	Bare bool `json:"bare,omitempty"`
+}
+
+// reText is the spelling of the regex in the query.
+func (m c02Matcher) reText() string {
+	if m.Bare && m.Re.Kind == "alt" && m.Re.A.Kind == "seq" && m.Re.B.Kind == "seq" &&
+		m.Re.A.A.Kind == "bol" && m.Re.B.B.Kind == "eol" {
+		return "^" + m.Re.A.B.Text() + "|" + m.Re.B.A.Text() + "$"
+	}
+	return m.Re.Text()
 }
 
 type c02Case struct {
@@ -43,14 +55,14 @@ func (m c02Matcher) Text() string {
 	op := map[string]string{"eq": "=", "ne": "!=", "re": "=~", "nre": "!~"}[m.Op]
 	v := m.Value
 	if m.Re != nil {
-		v = m.Re.Text()
+		v = m.reText()
 	}
 	return m.Label + op + strconv.Quote(v)
 }
 
 func (m c02Matcher) Sexp() Sexp {
 	if m.Re != nil {
-		return L(A("m"), B(m.Label), A(m.Op), B(m.Re.Text()), m.Re.Sexp())
+		return L(A("m"), B(m.Label), A(m.Op), B(m.reText()), m.Re.Sexp())
 	}
 	return L(A("m"), B(m.Label), A(m.Op), B(m.Value))
 }
@@ -202,6 +214,15 @@ func c02GenMatcher(r *rand.Rand, inv []c02Ctr) c02Matcher {
 		default:
 			g := 0
 			m.Re = genRe(r, 2, "webdxy0:/_", &g, false, nil)
+		}
+		if len(v) > 1 && r.Intn(5) == 0 {
+			// `^X|Y$` as written by hand: X a proper prefix of a present value, Y another present value;
+			// fully anchored it selects the values X and Y only, not those that merely start with X
+			w := pool[r.Intn(len(pool))]
+			m.Re = &Re{Kind: "alt",
+				A: &Re{Kind: "seq", A: &Re{Kind: "bol"}, B: reLit(v[:1+r.Intn(len(v)-1)])},
+				B: &Re{Kind: "seq", A: reLit(w), B: &Re{Kind: "eol"}}}
+			m.Bare = true
 		}
 		m.Value = ""
 	}
